@@ -76,6 +76,13 @@ func buildScenarios(c *core.Ctx) []func() *Scenario {
 		k := k
 		add(func(i int, sd int64) *Scenario { return genDownTrunc(i, sd, k, th) })
 	}
+	// directed: a new file obtains the inode number of a file that went away (while down / while running)
+	if inodesRecycled {
+		for k := 0; k < c.N(8, 64); k++ {
+			k := k
+			add(func(i int, sd int64) *Scenario { return genInodeReuse(i, sd, k, th) })
+		}
+	}
 	// truncation clause
 	tails := []string{"complete", "fragment", "blank"}
 	if th {
@@ -98,6 +105,38 @@ func buildScenarios(c *core.Ctx) []func() *Scenario {
 
 func main() {
 	core.Main("C03", "fault_enumeration", run)
+}
+
+// inodesRecycled: the scratch file system hands a freed inode number to the next file created in the
+// same directory (ext4, xfs; tmpfs does not). Decided by probeInodeRecycling before the scenarios are built.
+var inodesRecycled bool
+
+// probeInodeRecycling creates a file in a private directory, removes it and creates files until one
+// has the same inode number (at most 16 per round, 6 rounds).
+func probeInodeRecycling() bool {
+	dir, err := os.MkdirTemp(core.ScratchBase(), "verif-c03-inoprobe-")
+	if err != nil {
+		return false
+	}
+	defer os.RemoveAll(dir)
+	for round := 0; round < 6; round++ {
+		first := filepath.Join(dir, fmt.Sprintf("p%d", round))
+		if os.WriteFile(first, []byte("x\n"), 0o644) != nil {
+			return false
+		}
+		ino := inodeOf(first)
+		os.Remove(first)
+		for n := 0; n < 16; n++ {
+			f := filepath.Join(dir, fmt.Sprintf("p%d-%d", round, n))
+			if os.WriteFile(f, nil, 0o644) != nil {
+				return false
+			}
+			if inodeOf(f) == ino {
+				return true
+			}
+		}
+	}
+	return false
 }
 
 // sigSeen counts every refuting observation by signature (core prints only
@@ -133,7 +172,9 @@ func run(c *core.Ctx) {
 		"partial lines completed later, rename rotation while running and while down, hostile line content) x configuration (persistence async|sync, " +
 		"workers, read buffer 64B-4KiB, capacity, GOMAXPROCS, output batch size/workers/flush, chain none|discard|join) x kill plan (crash:<nth> at each of " +
 		strings.Join(hookPoints, ", ") + "; SIGKILL after a drawn delay; SIGKILL when the offsets file on disk shows a chosen state); truncation scenarios " +
-		"(watch on/off x truncation when idle / with events in flight x shape of the file's end) run without a kill. " +
+		"(watch on/off x truncation when idle / with events in flight x shape of the file's end) run without a kill; inode-reuse scenarios: a fully read file " +
+		"whose inode is a key of the persisted offsets goes away (unlinked / next generation renamed over it; while down / while run 2 is running) and a new, longer " +
+		"watched file with the same inode number appears after the start phase of run 2. " +
 		"A scenario is non-trivial if the restart had something to deliver (lines undelivered at the kill or written while down) or, for truncation, if " +
 		"post-truncation content was written; the fingerprint is kind/persistence/chain/kill point/how the run ended/outcome classes/features.")
 	c.Assume("a line counts as delivered when its id appears in a complete line of the file output's target file (written with O_APPEND, no user-space buffering)")
@@ -155,6 +196,12 @@ func run(c *core.Ctx) {
 		defer cleanup()
 	} else {
 		c.Assume("could not make a private copy of the binary (" + err.Error() + "); a concurrent rebuild may disturb this run")
+	}
+	inodesRecycled = probeInodeRecycling()
+	if !inodesRecycled {
+		c.Assume("the scratch file system does not hand freed inode numbers to new files: the inode-reuse histories cannot be staged here and are skipped")
+		c.Count("inodereuse.skipped_scratch_file_system_does_not_recycle_inode_numbers", 1)
+		fmt.Println("  note: scratch file system does not recycle inode numbers; family inodereuse skipped")
 	}
 	scs := buildScenarios(c)
 	if only := os.Getenv("C03_ONLY"); only != "" { // debugging aid: run a single scenario index
@@ -182,6 +229,13 @@ func run(c *core.Ctx) {
 		var res *result
 		for attempt := 0; attempt < 3; attempt++ {
 			res = runScenario(scs[i](), bin)
+			if res.NotStaged && attempt < 2 {
+				// another process of the machine took the freed inode number first: nothing observed, play the history again
+				mu.Lock()
+				c.Count("inodereuse.history_repeated_because_the_inode_number_went_elsewhere", 1)
+				mu.Unlock()
+				continue
+			}
 			if res.EnvProblem == "" {
 				break
 			}
@@ -246,6 +300,11 @@ func run(c *core.Ctx) {
 		}
 		if c.Counter("downtrunc.truncation_reported_by_run2") == 0 || c.Counter("downtrunc.file_had_saved_offsets_beyond_new_size") == 0 {
 			c.Fatal("no restart met a file truncated while down below its saved offsets")
+		}
+	}
+	if inodesRecycled && os.Getenv("C03_ONLY") == "" && (os.Getenv("C03_KIND") == "" || os.Getenv("C03_KIND") == "inodereuse") {
+		if c.Counter("inodereuse.new_file_got_an_inode_number_that_has_an_entry_in_the_loaded_offsets") == 0 {
+			c.Fatal("no scenario in which a new file obtained the inode number of a file that had gone away and is a key of the offsets file run 2 loaded")
 		}
 	}
 	if c.Counter("trunc.decided") == 0 && os.Getenv("C03_ONLY") == "" {
@@ -404,6 +463,20 @@ func judge(c *core.Ctx, res *result) {
 			c.Count("downtrunc.file_had_saved_offsets_beyond_new_size", 1)
 		}
 	}
+	if s.Kind == "inodereuse" && res.Reuse != nil {
+		ru := res.Reuse
+		c.Count("inodereuse.decided", 1)
+		c.Count("inodereuse.old_file_went_away_while_"+ru.Where, 1)
+		c.Count("inodereuse.inode_freed_by_"+ru.FreedBy, 1)
+		c.Count("inodereuse.run1_ended_by_"+s.ReuseEnd, 1)
+		c.Count("inodereuse.files_created_until_the_number_came_back", int64(ru.Creates))
+		if ru.StaleMin > 0 {
+			c.Count("inodereuse.new_file_got_an_inode_number_that_has_an_entry_in_the_loaded_offsets", 1)
+		}
+		if ru.NewFile != ru.OldFile {
+			c.Count("inodereuse.new_file_has_another_name_than_the_old_one", 1)
+		}
+	}
 	if res.TmpFiles > 0 {
 		c.Count("kill.left_temporary_offsets_file", 1)
 	}
@@ -419,7 +492,7 @@ func judge(c *core.Ctx, res *result) {
 		c.Count("run2.undecodable_lines_logged", int64(res.WrongFormat))
 	}
 
-	if pending > 0 || downLines > 0 {
+	if pending > 0 || downLines > 0 || (s.Kind == "inodereuse" && res.Reuse != nil && res.Reuse.StaleMin > 0) {
 		feat := append([]string{}, s.Features...)
 		sort.Strings(feat)
 		pt := s.Kill.Mode
@@ -432,6 +505,9 @@ func judge(c *core.Ctx, res *result) {
 	}
 	sm := summary(res)
 	sm["expected"], sm["pending_at_kill"], sm["recovered_in_run2"], sm["duplicates"], sm["written_while_down"], sm["lost"] = expected, pending, recovered, dups, downLines, lost
+	if res.Reuse != nil {
+		sm["inode_reuse"] = res.Reuse
+	}
 	c.Sample(sm)
 
 	// --- oracle -------------------------------------------------------------
@@ -489,12 +565,35 @@ func judge(c *core.Ctx, res *result) {
 		byInode[ents[i].Inode] = &ents[i]
 	}
 	groups := map[string][]map[string]any{}
+	reuseSig := ""
 	for i := range s.Lines {
 		l := &s.Lines[i]
 		if !l.Written || !l.Expect || res.D[l.ID] > 0 {
 			continue
 		}
 		ph := res.Phys[l.Phys]
+		if ph.Reused && res.Reuse != nil {
+			// a line of the new file that took over the inode number of the file that went away: one
+			// observation per scenario, classified by the first lost line of that file
+			ru := res.Reuse
+			own, has := ru.StaleStreams[streamKey(l.Stream)]
+			pos := "beyond-the-offsets-of-the-old-file"
+			switch {
+			case ru.StaleMin < 0:
+				pos = "no-entry-for-the-inode-in-the-loaded-offsets"
+			case l.End <= ru.StaleMin:
+				pos = "before-the-min-saved-offset-of-the-old-file"
+			case has && l.End <= own:
+				pos = "at-or-before-the-offset-saved-for-its-stream-in-the-old-file"
+			}
+			if reuseSig == "" {
+				reuseSig = fmt.Sprintf("C03:restart-loses-line:new-file-on-the-recycled-inode-of-a-file-that-went-away:old-file-went-away-while=%s:inode-freed-by=%s:first-lost-line=%s",
+					ru.Where, ru.FreedBy, pos)
+			}
+			groups[reuseSig] = append(groups[reuseSig], map[string]any{"id": l.ID, "stream": streamKey(l.Stream), "kind": l.Kind, "file": filepath.Base(ph.Path),
+				"start": l.Start, "end": l.End, "written_in": l.Phase, "position": pos, "logged_as_undecodable_in_run2": res.BadIDs[l.ID]})
+			continue
+		}
 		if s.Kind == "downtrunc" {
 			e := byInode[ph.Inode]
 			stale := false
@@ -548,7 +647,7 @@ func judge(c *core.Ctx, res *result) {
 		}
 		violation(c, s, sig,
 			fmt.Sprintf("%d complete line(s) written to a watched file appear in the output of neither run after run 2 went idle (scenario %d, %s, killed by %s)", n, s.Idx, s.Cfg.Persistence, res.KilledBy),
-			witness(res, ex, map[string]any{"run2_log_tail": res.Run2LogTail}))
+			witness(res, ex, map[string]any{"run2_log_tail": res.Run2LogTail, "inode_reuse": res.Reuse}))
 	}
 }
 
@@ -646,7 +745,7 @@ func anyNonLineEnd(res *result) string {
 	ents := parseOffsets(res.OffsetsAtKil)
 	for i := range ents {
 		for pi, ph := range res.Phys {
-			if ph.Inode == ents[i].Inode {
+			if ph.Inode == ents[i].Inode && !ph.Reused {
 				if bad := nonLineEnd(res.S, pi, &ents[i]); bad != "" {
 					return bad
 				}
@@ -843,6 +942,21 @@ func opsSummary(s *Scenario) []string {
 			out = append(out, fmt.Sprintf("complete line %s in f%d", s.Lines[op.Lines[0]].ID, op.File))
 		case "rotate":
 			out = append(out, fmt.Sprintf("rename f%d.log away (rotation)", op.File))
+		case "MARKX":
+			out = append(out, fmt.Sprintf("(the file now named f%d.log is X)", op.File))
+		case "VANISH":
+			if op.Raw == "unlink" {
+				out = append(out, "unlink X (its inode number stays reserved through a hard link outside the watched directory)")
+			} else {
+				out = append(out, fmt.Sprintf("rename f%d.log over X (X's inode number stays reserved through a hard link outside the watched directory)", op.File))
+			}
+		case "WAITGONE":
+			out = append(out, "wait for file.d's 'job ... deleted' line for X")
+		case "REUSE":
+			first, last := s.Lines[op.Lines[0]].ID, s.Lines[op.Lines[len(op.Lines)-1]].ID
+			out = append(out, fmt.Sprintf("drop the hard link, create a file with X's inode number, write %d lines %s..%s at once, rename it to f%d.log", len(op.Lines), first, last, op.File))
+		case "WAITSAVED":
+			out = append(out, fmt.Sprintf("wait for saved offsets (%s >= %d)", op.Raw, op.Ms))
 		case "sleep":
 			out = append(out, fmt.Sprintf("sleep %dms", op.Ms))
 		default:
